@@ -252,7 +252,7 @@ fn c19_fleet_seq(case: &Case) {
     let fleet = Fleet::with_options(
         vec![cfg],
         FleetOptions {
-            default_timeout: Duration::from_millis(timeout_ms),
+            default_timeout: Duration::from_millis(pick(&[1u64, timeout_ms, 5_000])), // (the fleet-wide default is not what a node with its own timeout uses)
             retry_policy: RetryPolicy { max_attempts, delay: Duration::from_millis(delay_ms) },
         },
     )
@@ -432,7 +432,7 @@ fn c19_fleet_broadcast(case: &Case) {
     let max_attempts = range(1, 3) as usize;
     let fleet = Fleet::with_options(
         cfgs,
-        FleetOptions { default_timeout: Duration::from_millis(50), retry_policy: RetryPolicy { max_attempts, delay: Duration::from_millis(5) } },
+        FleetOptions { default_timeout: Duration::from_millis(pick(&[1u64, 50, 5_000])), retry_policy: RetryPolicy { max_attempts, delay: Duration::from_millis(5) } },
     )
     .unwrap();
     let mut want_tags: Vec<&str> = all_tags.iter().copied().filter(|_| simkernel::choose(3) == 0).collect();
